@@ -103,12 +103,16 @@ variable {V : Type} [Val V]
 /-- does the selection of a topk/bottomk group depend on the order of its members? -/
 def groupOrderDependent (top : Bool) (k : Nat) (vals : List V) : Bool :=
   if vals.length ≤ k then false
-  else if vals.any isNaN then true
   else
-    let sorted := vals.mergeSort (fun a b => if top then !lt a b else !lt b a)
-    match sorted[k - 1]?, sorted[k]? with
-    | some a, some b => eq a b
-    | _, _ => false
+    -- NaN sorts first in the heaps: NaN members are evicted before any number, so they only
+    -- matter (and then make the choice arbitrary) when fewer than k numbers are present
+    let nums := vals.filter fun v => !isNaN v
+    if nums.length < k then true
+    else
+      let sorted := nums.mergeSort (fun a b => if top then !lt a b else !lt b a)
+      match sorted[k - 1]?, sorted[k]? with
+      | some a, some b => eq a b
+      | _, _ => false
 
 /-- some topk/bottomk of the query has, at some step, a tie at the selection boundary: the
 result then legitimately depends on the order in which samples reach the aggregation -/
